@@ -102,7 +102,7 @@ fn kind(t: &Term) -> &'static str {
               Term::List(..) => "list", Term::Cmp(..) => "complex", Term::Func(..) => "function" }
 }
 
-fn text_safe(t: &Term) -> bool {
+pub fn text_safe(t: &Term) -> bool {
     // can this constant be written in source text and read back as the same constant?
     match t {
         Term::Atom(a) => !a.chars().all(|c| c.is_ascii_digit()) && !a.contains(['(', ')', ',', '"', '[', ']', '|', '$', '=', '<', '>']) && a.trim() == a && !a.is_empty(),
